@@ -60,11 +60,14 @@ except Exception:  # pragma: no cover
 
 
 def _smart(s, parent, kind, attrname=None):
-    if type(s) is str or _Lazy is None or not isinstance(s, _Lazy):
+    # NB: under CrossHair type() and isinstance() answer with the *Python* type of a symbolic value,
+    # so the symbolic string class is recognised by its own attribute
+    cps = getattr(s, "_codepoints", None) if _Lazy is not None else None
+    if cps is None:
         if type(s) is not str:
             s = str(s)
         return _SmartStr(s, parent, kind, attrname)
-    o = _SymSmartStr(s._codepoints)
+    o = _SymSmartStr(cps)
     o._p = parent
     o.is_text = kind == "text"
     o.is_tail = kind == "tail"
